@@ -297,12 +297,15 @@ def templates(draw, depth=2):
     out = {}
     for i in range(n):
         key = draw(st.sampled_from(["a", "b", "c", "d", "x.y", "k$", "$k", "a.$x"])) + str(i)
-        kind = draw(st.sampled_from(["lit", "lit-dollar", "path", "ctx", "call", "nest", "list"]))
+        kind = draw(st.sampled_from(["lit", "lit-dollar", "path", "ctx", "call", "nest", "list", "lit", "path", "call", "non-string-dollar"]))
         if kind == "lit":
             out[key] = draw(st.one_of(st.sampled_from([0, 1.5, True, None, "", "plain"]), st.just({}), st.just([])))
         elif kind == "lit-dollar":
             # values that look evaluable but whose member name does not end in ".$": must be copied verbatim
             out[key] = draw(st.sampled_from(["$.s", "$$.x", "States.UUID()", "$", "States.MathAdd(1, 2)"]))
+        elif kind == "non-string-dollar":
+            # a '.$' member whose value is not a string is ill-formed: a clean failure, never an arbitrary exception
+            out[key + ".$"] = draw(st.sampled_from([5, 1.5, True, None, 0]))
         elif kind == "path":
             out[key + ".$"] = draw(st.sampled_from(ANY_PATHS + MISSING_PATHS[:1]))
         elif kind == "ctx":
